@@ -20,7 +20,7 @@ from vlib.simcheck import SIM_ASSUME
 from vlib.simnet import LISTENER, Sim
 
 RULE = ("Hypothesis draws sequences of reporting intervals; per interval a multiset of published message types (number of distinct "
-        "types from {0,1,2,3,63,64,65,128,129,300}, per-type counts 1..5 and occasionally 200 / 65535 (thorough), type values incl. 0, "
+        "types from {0,1,2,3,63,64,65,128,129,300}, per-type counts 1..5, 40/200, the boundary table 255..65535 (one interval per value, both tiers) and 65535 inside random histories (thorough), type values incl. 0, "
         "9999, 10000, negative and huge ones, some publishes with out-of-range destinations), clients connecting / announcing their pid / "
         "leaving, and a report step that advances the virtual clock (0.95 s: TIMING only; 2 s: TIMING and TRAFFIC; 6 s: also "
         "ACTIVE_CLIENTS). Oracle: the frames seen by an all-seeing logger monitor between two reports are counted independently; "
@@ -306,8 +306,29 @@ def run_case(cfg, intervals, res: Result = None):
 CFGS = [{"timecode": False, "timing": True}, {"timecode": True, "timing": True}, {"timecode": False, "timing": False}]
 
 
-def shard(seed, n, thorough):
+# per-type counts at the boundaries of the 8/15/16-bit ranges of the uint16 count fields: one interval each
+BOUNDARY_COUNTS = [255, 256, 32767, 32768, 32769, 40000, 65534, 65535]
+
+
+def boundary_cases(thorough):
+    cases = []
+    for ci in ((0, 1, 2) if thorough else (0,)):
+        for j, cnt in enumerate(BOUNDARY_COUNTS):
+            cases.append((ci if thorough else j % 3, [dict(k=2, base=700 + j, stride=1, count=cnt, special=[], baddest=j % 2,
+                                                      event=None, dt=2.0)]))
+    return cases
+
+
+def shard(seed, n, thorough, index=0):
     res = Result()
+    bc = boundary_cases(thorough)
+    for ci, ivs in bc[index::16]:
+        try:
+            run_case(CFGS[ci], ivs, res)
+        except Violation as v:
+            res.add_finding(v.key, v.what, v.trace)
+        res.evaluations += 1
+        res.count("boundary-count-cases")
 
     def body(v):
         ci, ivs = v
@@ -323,7 +344,7 @@ def shard(seed, n, thorough):
 def run(ctx: RunContext) -> int:
     t0 = time.time()
     n = ctx.scale(150, 500)
-    res = run_shards(shard, [(derive_seed(ctx.seed, i), n, not ctx.quick) for i in range(16)])
+    res = run_shards(shard, [(derive_seed(ctx.seed, i), n, not ctx.quick, i) for i in range(16)])
     return conclude(ctx, res, RULE, ASSUME, t0)
 
 
